@@ -321,3 +321,8 @@ func FillRequired(m protoreflect.Message) {
 		}
 	}
 }
+
+// SetSimple sets a singular scalar field to the second value of its domain.
+func SetSimple(m protoreflect.Message, fd protoreflect.FieldDescriptor) {
+	m.Set(fd, scalarDomain(fd, false)[1].v)
+}
